@@ -249,7 +249,49 @@ def r03_2_3(rep: Report) -> None:
     ff = need(find_func(saio, 'find_first_cenc_sample'), 'find_first_cenc_sample')
     deps = _deps(ff, [n for n in ast.walk(ff) if isinstance(n, ast.Return) and n.value is not None
                       and not isinstance(n.value, ast.Constant)][-1].value)
-    if {'senc.position', 'senc.samples'} <= {d for d in deps} | {d.rsplit('[', 1)[0] for d in deps} \
+    # the value itself, per path, as a linear form: (+ senc.position + senc.samples[0].offset) minus the base
+    # the served tfhd declares, or minus the moof position when it declares none (readers add the base)
+    _upd2, _resolve2 = _sv(max_len=400)
+    sforms: list[tuple[ast.AST, dict]] = []
+
+    def _on2(st, states):
+        if isinstance(st, ast.Return) and st.value is not None and not isinstance(st.value, ast.Constant):
+            for state in states:
+                sforms.append((st, lin_atoms(_resolve2(state, st.value))))
+    Flow(Disjunctive(_PC(upd=_upd2), cap=128), on_stmt=_on2).run(ff, [_PC.initial()])
+    ff_roles: dict[str, str] = {}
+    for fourcc_ in ('moof', 'tfhd', 'senc'):
+        for a_ in ast.walk(ff):
+            if isinstance(a_, ast.Assign) and isinstance(a_.targets[0], ast.Name) and isinstance(a_.value, ast.Call) \
+                    and (call_name(a_.value) or '').rsplit('.', 1)[-1].startswith('find_') \
+                    and any(isinstance(x_, ast.Constant) and x_.value == fourcc_ for x_ in a_.value.args):
+                ff_roles[a_.targets[0].id] = fourcc_
+
+    def saio_key(k: str) -> str:
+        k = re.sub(r"[\w.]*find_\w+\('(\w+)'\)", r'\1', k)
+        head, dot, rest = k.partition('.')
+        return ff_roles.get(head, head) + dot + rest
+    want_pos = {'senc.position', 'senc.samples[0].offset'}
+    bad_form = None
+    bases: set[str] = set()
+    for st_, form in sforms:
+        form = {saio_key(k): v for k, v in form.items()}
+        pos = {k for k, v in form.items() if v == 1}
+        neg = {k for k, v in form.items() if v == -1}
+        if pos == want_pos and len(neg) == 1 and len(form) == 3 and next(iter(neg)) in ('tfhd.base_data_offset', 'moof.position'):
+            bases |= neg
+        else:
+            bad_form = (st_, form)
+    if sforms and bad_form is None and bases != {'tfhd.base_data_offset', 'moof.position'}:
+        bad_form = (sforms[0][0], {f'(only relative to {sorted(bases)})': 1})
+    if bad_form is not None:
+        shown = ' '.join(f'{"+" if v > 0 else "-"} {k}' for k, v in sorted(bad_form[1].items()))
+        rep.fail('R03.2', f'{MP4}::SampleAuxiliaryInformationOffsetsBox.find_first_cenc_sample',
+                 'offset = senc.position + samples[0].offset - base_data_offset',
+                 f'the saio offset is `{shown[:160]}`; it must be senc.position + senc.samples[0].offset minus '
+                 'tfhd.base_data_offset, or minus the moof position when the tfhd declares no base: readers add the base',
+                 bad_form[0])
+    elif {'senc.position', 'senc.samples'} <= {d for d in deps} | {d.rsplit('[', 1)[0] for d in deps} \
             and any('base_data_offset' in d for d in deps):
         rep.ok('R03.2', f'{MP4}::SampleAuxiliaryInformationOffsetsBox.find_first_cenc_sample',
                'offset = senc.position + samples[0].offset - base_data_offset')
@@ -749,6 +791,49 @@ def r03_7(rep: Report, c: str, fn: ast.FunctionDef, lf: ast.FunctionDef, results
         rep.ok('R03.7', f'{MP4}::TrackFragmentRunBox.post_encode', 'no fix-up grows an encoded box')
 
 
+def r03_8(rep: Report) -> None:
+    """first pass of the saio box: when the stored offsets were reset (`self.offsets is None`) the box is written
+    with exactly one entry - the position of the first senc sample entry, clamped to 0 while that is still
+    negative - unless there is no such sample (`find_first_cenc_sample()` returned None).  post_encode() repairs
+    the value afterwards but only for a box that HAS one entry, so an entry dropped here (for instance because
+    a position of 0 is tested by truthiness) is served as an empty saio."""
+    from ..pathcond import PathCond, entails as pc_entails, show as pc_show
+    rid = 'R03.8'
+    tree = rep.repo.tree(MP4)
+    saio = need(find_class(tree, 'SampleAuxiliaryInformationOffsetsBox'), 'saio box')
+    fn = need(find_func(saio, 'encode_box_fields'), 'saio.encode_box_fields')
+    c = f'{MP4}::SampleAuxiliaryInformationOffsetsBox.encode_box_fields'
+    pos_names = {norm(a.targets[0]) for a in ast.walk(fn) if isinstance(a, ast.Assign) and len(a.targets) == 1
+                 and isinstance(a.targets[0], ast.Name) and isinstance(a.value, ast.Call)
+                 and (call_name(a.value) or '').endswith('find_first_cenc_sample')}
+    if not pos_names:
+        raise AnalysisError('saio.encode_box_fields: the first-sample position is not taken from find_first_cenc_sample()')
+    sites: list[tuple[ast.Assign, list]] = []
+
+    def on_stmt(st, states):
+        if isinstance(st, ast.Assign) and len(st.targets) == 1 and norm(st.targets[0]) == 'self.offsets':
+            sites.append((st, list(states)))
+    Flow(Disjunctive(PathCond(), cap=256), on_stmt=on_stmt).run(fn, [PathCond.initial()])
+    if not sites:
+        raise AnalysisError('saio.encode_box_fields: no assignment of self.offsets')
+    for st, states in sites:
+        v = st.value
+        if isinstance(v, (ast.List, ast.Tuple)) and not v.elts:
+            bad = [x for x in states if not any(pc_entails(x[0], ('atom', f'{p_} is None')) is True for p_ in pos_names)]
+            if bad:
+                rep.fail(rid, c, 'no entry only when there is no senc sample',
+                         f'`{norm(st)}` is reached on a path that does not imply `{sorted(pos_names)[0]} is None` '
+                         f'(path: {pc_show(bad[0][0])[:120]}): a first-sample position of 0 - the clamped value while '
+                         'the moof has moved - is written as an empty saio, which post_encode() never repairs', st)
+            else:
+                rep.ok(rid, c, 'no entry only when there is no senc sample', f'{len(states)} path(s)')
+        elif isinstance(v, (ast.List, ast.Tuple)) and len(v.elts) == 1 and norm(v.elts[0]) in pos_names:
+            rep.ok(rid, c, 'one entry: the first sample position')
+        else:
+            rep.fail(rid, c, 'one entry: the first sample position',
+                     f'`{norm(st)[:80]}`: the reset saio is not written with the single entry [{sorted(pos_names)[0]}]', st)
+
+
 def analyse(rep: Report) -> None:
     rep.explanation = (
         'Decides the structural protocol that makes offsets right after edits: reader/writer '
@@ -763,10 +848,12 @@ def analyse(rep: Report) -> None:
     rep.rule('R03.4', 'nothing writes to the encoded segment except the guarded corruption hook', floor=2)
     rep.rule('R03.5', 'box insertions reach the offset resets before encode', floor=6)
     rep.rule('R03.7', 'a re-based fragment resets stored offsets and leaves room for the fix-ups on every path', floor=2)
+    rep.rule('R03.8', 'a reset saio is written with one entry unless there is no senc sample', floor=2)
     rep.rule('R04.3', 'edit API invalidates cached encodings; two-pass encode order (shared with C04)',
              floor=10)
     idx = Index(rep.repo, 'dashlive')
     layout_rule(rep, idx, 'R03.1', [MP4], 12, only=SEGMENT_BOXES)
     r03_2_3(rep)
     r03_4_5(rep)
+    r03_8(rep)
     r04_3(rep)
